@@ -189,26 +189,46 @@ Check sin_interp_segment_range : forall i frac, i < 1024 -> in01 frac = true ->
   in01 (f_add (lut i) (f_mul frac (f_sub (lut (i + 1)) (lut i)))) = true.
 Print Assumptions sin_interp_segment_range.
 
-(* REFUTED (known finding oracle:quat-from_axis_angle-nan-from-finite-input).  Full statement wanted:
-     forall axis angle, all components finite ->
-       no component of Quat::from_axis_angle(axis, angle) is NaN          (totality on finite input)
-   It is false of the faithful model and of the code: for axis = (1e20, 0, 0), angle = 1.0 the squared
-   length overflows to +inf, passes the `len_sq <= EPSILON^2` guard, det_sqrt_f32 clamps +inf to 0.0
-   and 1.0 / 0.0 poisons the result.  The harness replays exactly this witness on the real crate
-   (release: NaN components; debug: panic in Quat::new).  What remains unproved: the guarded version
-   "len_sq finite -> no NaN component". *)
-Theorem from_axis_angle_total_refuted :
+(* TOTALITY of Quat::from_axis_angle (quat.rs after the overflow repair: when the squared length overflows to
+   +inf the axis is first divided by its largest component magnitude).  For EVERY finite axis - zero, subnormal,
+   up to f32::MAX in every component - and ANY angle pattern, all four components of the result are finite
+   (in particular never NaN), under IEEE-754 binary32 round-to-nearest-even (Flocq).  Ingredients: a sum of
+   rounded squares of finite numbers is finite or +inf, never NaN; if it is finite every component is at most
+   2 * sqrt of it (rounding never halves a value above 2^-149); after the rescue division every component is within
+   [-1, 1] and the new squared length is at most 4; sqrt, 1/len and the products then stay below 2^23; sin and cos
+   of the half angle are finite with magnitude at most 1 (sin_cos_range machinery).  Release semantics: a non-finite
+   ANGLE trips the documented debug_assert in debug builds. *)
+Theorem from_axis_angle_total : forall x y z angle, x < TWO32 -> y < TWO32 -> z < TWO32 ->
+  is_finite x = true -> is_finite y = true -> is_finite z = true ->
+  all_finite (q4_list (q_from_axis_angle flocq_prims (x, y, z) angle)) = true.
+Proof. exact from_axis_angle_total_l. Qed.
+Check from_axis_angle_total : forall x y z angle, x < TWO32 -> y < TWO32 -> z < TWO32 ->
+  is_finite x = true -> is_finite y = true -> is_finite z = true ->
+  all_finite (q4_list (q_from_axis_angle flocq_prims (x, y, z) angle)) = true.
+Print Assumptions from_axis_angle_total.
+
+(* The repair does not touch any input whose squared length is not +-inf: on those the function is, for ANY float
+   primitives, literally the old code path (q_from_axis_angle_v0 = quat.rs before the repair). *)
+Theorem from_axis_angle_unchanged : forall P axis angle,
+  is_inf (v_dot P axis axis) = false ->
+  q_from_axis_angle P axis angle = q_from_axis_angle_v0 P axis angle.
+Proof. exact from_axis_angle_unchanged_l. Qed.
+Check from_axis_angle_unchanged : forall P axis angle,
+  is_inf (v_dot P axis axis) = false ->
+  q_from_axis_angle P axis angle = q_from_axis_angle_v0 P axis angle.
+Print Assumptions from_axis_angle_unchanged.
+
+(* Regression against the OLD definition (former known finding oracle:quat-from_axis_angle-nan-from-finite-input):
+   on axis = (1e20, 0, 0), angle = 1.0 the old code produced NaN components because the squared length overflowed;
+   the repaired code returns exactly the quaternion of the unit axis (1, 0, 0). *)
+Example from_axis_angle_old_witness :
   exists ax ay az angle,
     all_finite [ax; ay; az; angle] = true /\
-    has_nan (q4_list (q_from_axis_angle flocq_prims (ax, ay, az) angle)) = true /\
-    is_inf (v_dot flocq_prims (ax, ay, az) (ax, ay, az)) = true.
-Proof. exact from_axis_angle_nan_witness. Qed.
-Check from_axis_angle_total_refuted :
-  exists ax ay az angle,
-    all_finite [ax; ay; az; angle] = true /\
-    has_nan (q4_list (q_from_axis_angle flocq_prims (ax, ay, az) angle)) = true /\
-    is_inf (v_dot flocq_prims (ax, ay, az) (ax, ay, az)) = true.
-Print Assumptions from_axis_angle_total_refuted.
+    has_nan (q4_list (q_from_axis_angle_v0 flocq_prims (ax, ay, az) angle)) = true /\
+    is_inf (v_dot flocq_prims (ax, ay, az) (ax, ay, az)) = true /\
+    q_from_axis_angle flocq_prims (ax, ay, az) angle = q_from_axis_angle flocq_prims (ONE, 0, 0) angle /\
+    all_finite (q4_list (q_from_axis_angle flocq_prims (ax, ay, az) angle)) = true.
+Proof. exact from_axis_angle_v0_nan_witness. Qed.
 
 (* Non-vacuity: a canonical, finite, non-zero angle (pi/8) whose sine and cosine are non-trivial and
    whose negation flips exactly the sign bit of the sine. *)
